@@ -55,6 +55,13 @@ func raceSolvers(script string, dir string, name string, timeoutS int) solveResu
 	type res struct {
 		r solveResult
 	}
+	solvers := solvers
+	if strings.Contains(script, "(bvudiv ") || strings.Contains(script, "(bvurem ") || strings.Contains(script, "(bvmul ") || strings.Contains(script, "(bvsdiv ") || strings.Contains(script, "(bvsrem ") {
+		// non-linear bit-vector arithmetic: also try cvc5's translation of bit-vectors to integers
+		solvers = append(append([]solverSpec{}, solvers...), solverSpec{"cvc5-1.0.3-intblast", func(f string, t int) []string {
+			return []string{"cvc5", "--lang=smt2", "--solve-bv-as-int=sum", fmt.Sprintf("--tlimit=%d", t*1000), f}
+		}})
+	}
 	ch := make(chan solveResult, len(solvers))
 	start := time.Now()
 	for _, sp := range solvers {
